@@ -13,7 +13,8 @@ Kind(nm, n, b) == [name |-> nm, mtime |-> <<49, 52, 51, 51, 49, 53, 51, 49, 50, 
                    mode |-> <<49, 48, 48, 54, 52, 52>>, data |-> Data(n), blank |-> b]
 \* the same member with every numeric column filled to its width (timestamps after 2038, 6-digit ids)
 BigKind(nm, n) == [Kind(nm, n, FALSE) EXCEPT !.mtime = <<57, 57, 57, 57, 57, 57, 57, 57, 57, 57, 57, 57>>,
-                                             !.uid = <<57, 57, 57, 57, 57, 57>>, !.gid = <<50, 49, 52, 55, 52, 56>>]
+                                             !.uid = <<57, 57, 57, 57, 57, 57>>, !.gid = <<50, 49, 52, 55, 52, 56>>,
+                                             !.mode = <<51, 55, 55, 55, 55, 55, 55, 53>>]                    \* mode 37777775: all 8 columns
 \* one numeric column blank, the ones after it filled (a blank column is read as 0; it says nothing about the others)
 PartKinds == {[Kind(<<97>>, n, FALSE) EXCEPT !.mtime = <<>>, !.uid = <<49, 48, 48, 48>>, !.gid = <<49, 48, 48>>] : n \in {0, 1}}
              \cup {[Kind(<<97>>, n, FALSE) EXCEPT !.uid = <<>>, !.gid = <<49, 48, 48>>] : n \in {0, 1}}
